@@ -333,6 +333,18 @@ def run_pattern(solver, pattern, after_step=None):
                 sols.append(solver.Solve())
             elif step[0] == "local":
                 solver.DoLocalRefinement(step[1])
+            elif step[0] == "evq":
+                # the user puts a few pure queries to the solver's own evolvent (public attribute) between calls: C17 says they
+                # have no effect, so neither the search nor its record may notice
+                ev = solver.evolvent
+                lo_ = np.array(solver.problem.lowerBoundOfFloatVariables, dtype=float)
+                hi_ = np.array(solver.problem.upperBoundOfFloatVariables, dtype=float)
+                g = np.random.default_rng(step[1])
+                for q in range(3):
+                    y_ = lo_ + g.random(len(lo_)) * (hi_ - lo_)
+                    ev.GetInverseImage(y_)
+                    ev.GetPreimages(list(y_))
+                    ev.GetImage(float(g.random()))
             elif step[0] == "set":
                 # the user edits the public SolverParameters object between calls (e.g. raises itersLimit and solves on)
                 setattr(solver.parameters, step[1], step[2])
